@@ -218,6 +218,36 @@ theorem valueErrorIff_fails : ¬ ValueErrorIff := by
   rw [hr] at this
   cases this
 
+/-- the whole defect region of T-C13.2 for `RandomKCNF`: beyond `sys.maxsize` variables, EVERY request that
+should fail with ValueError because `m` exceeds the number of compatible clauses fails with OverflowError
+instead (on every legal complete recording) -/
+theorem randomKCNF_huge_too_many_overflow (σ : Int → List Draw) (k n m : Nat) (seed : Option Int)
+    (planted : List (List Int)) (rng : List Draw) (hB : sysMaxsize < n) (hk : k ≤ n)
+    (hm : (allClauses k n planted).length < m) (hL : Legal (usedStream σ seed rng))
+    (hC : Completed (randomKCNF σ k n m seed planted rng)) :
+    randomKCNF σ k n m seed planted rng = .error (.py .overflowError) := by
+  cases hr : randomKCNF σ k n m seed planted rng with
+  | ok p =>
+    obtain ⟨F, rest⟩ := p
+    obtain ⟨_, cls, hs, _⟩ := randomKCNF_ok hr
+    obtain ⟨⟨hn, hmem, _⟩, hlen, _, _⟩ := sampleClauses_ok hL hs
+    have := length_le_allClauses hn hmem
+    omega
+  | error e =>
+    rcases randomKCNF_error hr with ⟨_, h'⟩ | ⟨_, h'⟩
+    · omega
+    · rcases sampleClauses_error hL h' with ⟨_, h''⟩ | ⟨h'', _⟩ | h'' | ⟨h'', _⟩
+      · rcases h'' with h'' | ⟨_, h''⟩ <;> omega
+      · rw [h''] at hr; exact absurd hr hC.1
+      · rw [h''] at hr; exact absurd hr hC.2
+      · rw [h'']
+
+/-- non-vacuity: the hypotheses hold for k = 0, n = 2^63, m = 2 (no draws needed) -/
+example : randomKCNF (fun _ => []) 0 (2 ^ 63) 2 none [] [] = .error (.py .overflowError) :=
+  randomKCNF_huge_too_many_overflow _ 0 (2 ^ 63) 2 none [] [] (by decide) (by omega)
+    (by rw [allClauses_count_unplanted]; simp) Legal.nil
+    (by rw [randomKCNF_huge_dense_overflow]; exact ⟨by simp, by simp⟩)
+
 /-- … and otherwise the run returns a formula (never anything else) -/
 theorem randomKCNF_ok_iff_partial (σ : Int → List Draw) (k n m : Nat) (seed : Option Int)
     (planted : List (List Int)) (rng : List Draw) (hS : n ≤ sysMaxsize) (hL : Legal (usedStream σ seed rng))
@@ -497,6 +527,32 @@ theorem randomKXOR_valueError_iff_partial (σ : Int → List Draw) (k n m : Nat)
         · rw [h''] at hr; exact absurd hr hC.1
         · rw [h''] at hr; exact absurd hr hC.2
         · omega
+
+/-- the whole defect region for `RandomKXOR`: beyond `sys.maxsize` variables every request with `m` above the
+number of compatible parities fails with OverflowError instead of ValueError -/
+theorem randomKXOR_huge_too_many_overflow (σ : Int → List Draw) (k n m : Nat) (seed : Option Int)
+    (planted : List (List Int)) (hT : ∀ a ∈ planted, TotalOn n a) (rng : List Draw)
+    (full : List Parity) (hfull : allGoodParities k n planted = .ok full)
+    (hB : sysMaxsize < n) (hk : k ≤ n) (hm : full.length < m) (hL : Legal (usedStream σ seed rng))
+    (hC : Completed (randomKXORSys σ k n m seed planted rng)) :
+    randomKXORSys σ k n m seed planted rng = .error (.py .overflowError) := by
+  rw [randomKXORSys_eq] at hC ⊢
+  have hk' : ¬ n < k := by omega
+  simp only [hk', if_false] at hC ⊢
+  cases hr : sampleParities k n m planted (usedStream σ seed rng) with
+  | ok p =>
+    obtain ⟨sys, rest⟩ := p
+    obtain ⟨⟨hn, hmem, _⟩, hlen, _, _⟩ := sampleParities_ok hT hfull hL hr
+    obtain ⟨full', h1, h2, _⟩ := allGoodParities_total (k := k) hT
+    rw [hfull] at h1; cases h1
+    have := length_le_of_nodup_subset hn (fun p hp => (h2 p).2 (hmem p hp))
+    omega
+  | error e =>
+    rcases sampleParities_error hT hfull hL hr with ⟨_, h''⟩ | ⟨h'', _⟩ | h'' | ⟨h'', _⟩
+    · rcases h'' with h'' | ⟨_, h''⟩ <;> omega
+    · rw [h''] at hr; exact absurd hr hC.1
+    · rw [h''] at hr; exact absurd hr hC.2
+    · rw [h'']
 
 /-- for ALL `n`: a ValueError of `RandomKXOR` is never spurious -/
 theorem randomKXOR_valueError_only_if (σ : Int → List Draw) (k n m : Nat) (seed : Option Int)
